@@ -176,7 +176,11 @@ def stitchDown : Nat → Option Str → Prog (List IndexEntry)
       else
         let more ← stitchDown b last'
         pure (es ++ more)
-    else stitchDown b last
+    else
+      -- `previous_existing_band` (after the repair): index hunks are only written after the head,
+      -- so an id that holds hunk 0 but no head has lost its head: report it, then walk on
+      if ← unwrapOr (isFile (.hunk b 0)) false then logError (.bandHeadMissing b)
+      stitchDown b last
 
 /-- All entries `Stitch::new(archive, band, "/", nothing)` yields (before filtering). -/
 def stitchAll (b : Nat) : Prog (List IndexEntry) := do
